@@ -15,6 +15,7 @@ contribute nothing, keyword_search equals a direct filter.
 import itertools
 import json
 import os
+import string
 import subprocess
 import sys
 from collections import OrderedDict
@@ -115,7 +116,7 @@ def render_ini_item(it):
         _, n, s1, sep, s2, v = it
         return n + spaces(s1) + sep + spaces(s2) + v
     if it[0] == "comment":
-        return (";" if it[1] else "#") + it[2]
+        return spaces(it[3] if len(it) > 3 else 0) + (";" if it[1] else "#") + it[2]
     return ""
 
 
@@ -209,8 +210,34 @@ def ini_expect(doc):
         if it[0] == "sec":
             cur = secs.setdefault(it[2], OrderedDict())
         elif it[0] == "opt" and cur is not None:
-            cur[it[1].lower()] = it[5]
+            # in this format a '#' inside a value starts an inline comment: it is not data
+            cur[it[1].lower()] = it[5].split("#")[0].rstrip(" ")
     return secs
+
+
+# the alphabet the UNCHANGED grammar admits (iniparser.parse_doc: header_chars, key_chars); fixed here on purpose:
+# the property quantifies over it, whatever the code under test currently accepts
+HEADER_ALPHABET = sorted((set(string.printable) - set(string.whitespace) - set("[]")) | set(" "))
+KEY_ALPHABET = sorted(set(HEADER_ALPHABET) - set("=:"))
+INDENT_FINDING = "ini-indented-comment-joins-value"
+
+
+def ini_tainted(doc):
+    """(section, lower-cased option) pairs whose value line is followed — blank lines and further indented comments
+    aside — by an INDENTED comment line: the recorded finding ini-indented-comment-joins-value"""
+    out, cur, last = set(), None, None
+    for it in doc:
+        if it[0] == "sec":
+            cur, last = it[2], None
+        elif it[0] == "opt":
+            last = (cur, it[1].lower())
+        elif it[0] == "comment":
+            if len(it) > 3 and it[3] > 0:
+                if last is not None:
+                    out.add(last)
+            else:
+                last = None
+    return out
 
 
 def ini_queries(doc, rng):
@@ -411,13 +438,20 @@ def evaluate(c):
     if op == "ini":
         lines = render_ini(c["doc"]) if "doc" in c else c["lines"]
         qs = [tuple(q) for q in c["qs"]]
-        line = "initext\t%s\t%s\t%s" % (B(c.get("anv", False)), L(lines), P(qs))
+        # context_wrap (test fixture) strips the text and splits it into lines before the parser sees it
+        line = "initext\t%s\t%s\t%s" % (B(c.get("anv", False)), L("\n".join(lines).strip().splitlines()), P(qs))
         try:
             p, tree, ans = ini_impl(lines, c.get("anv", False), qs)
         except Exception as e:  # the grammar rejects the text (parsr raises plain Exception) / SkipComponent
             return line, "parse-error", fails
         if "doc" in c and c.get("oracle"):
             want = ini_expect(c["doc"])
+            tainted = ini_tainted(c["doc"])
+
+            def finding(s, o):
+                if (s, o) in tainted or ("DEFAULT", o) in tainted:
+                    return INDENT_FINDING
+                return ini_finding(c["doc"], s, o)
             dflt = want.get("DEFAULT", {})
             ws = [s for s in want if s != "DEFAULT"]
             if p.sections() != ws:
@@ -432,7 +466,9 @@ def evaluate(c):
                         except (NoOptionError, NoSectionError) as e:
                             got = type(e).__name__
                         if got != v:
-                            fails.append(("get(%r, %r) = %r, the document says %r" % (s, spelled, got, v), ini_finding(c["doc"], s, o)))
+                            fails.append(("get(%r, %r) = %r, the document says %r" % (s, spelled, got, v), finding(s, o)))
+                        if not p.has_option(s, spelled):
+                            fails.append(("has_option(%r, %r) is False for a rendered option" % (s, spelled), finding(s, o)))
                 if s != "DEFAULT":
                     extra = [k for k in p.items(s) if k not in want[s] and k not in dflt]
                     if extra:
@@ -846,12 +882,86 @@ def gen_ini(rng, with_default):
     return c
 
 
+INI_SPECIAL_OPTS = ["max;size", "retry;delay", "a#b", "comment # in key", "k.e-y_1", "a b c", "100%", "p/q", "f(x)", "user@host", "x!", "*", "a*b?",
+                    "c++", "\"q\"", "'s'", "it's", "a,b", "<tag>", "{x}", "a|b", "~", "^", "$HOME", "`cmd`", "back\\slash", "semi;", "hash#", "K;K", "A#b",
+                    "-", "_", ".", "0", "x ; y", "x # y", "&&"]
+INI_SPECIAL_SECS = ["a;b", ";lead", "#lead", "x#y", "a=b", "k:v", "p/q r", "s(1)", "%", "q?", "it's", "a.b-c_d", "x ; y", "DEFAULT;", "!"]
+INI_SPECIAL_VALS = ["a;b", "a ;b", ";x", "a#b", "a #b", "a # b ; c", "x;", "1;2;3", "v", "", "a = b", "k: v", "[x]", "(1)", "\"q\"", "yes", "No", "p/q?r=1&s=2"]
+
+
+def ini_name(rng, alphabet):
+    """a name over the whole admitted alphabet: any admitted character at first, inner and last position"""
+    n = rng.choice([1, 2, 3, 3, 5])
+    for _ in range(50):
+        x = "".join(rng.choice(alphabet) for _ in range(n))
+        if x == x.strip(" ") and x:
+            return x
+    return "x"
+
+
+def gen_ini_special(rng):
+    """option and section names over the full alphabet of the unchanged grammar, values with ';' and '#',
+    comment lines with leading blanks"""
+    doc = []
+    if rng.random() < 0.3:
+        doc.append(["comment", rng.random() < 0.5, " top", rng.choice([0, 2])])
+    secs = INI_SPECIAL_SECS + ["main", "DEFAULT", "main"]
+    opts = [rng.choice(INI_SPECIAL_OPTS) for _ in range(4)] + [ini_name(rng, KEY_ALPHABET) for _ in range(3)]
+    opts = [o for o in opts if o[0] not in "#;"] or ["max;size"]
+    opts += [o.upper() for o in opts[:2]] + [o.lower() for o in opts[:1]]
+    for _ in range(rng.choice([1, 2, 3])):
+        name = rng.choice(secs) if rng.random() < 0.7 else ini_name(rng, HEADER_ALPHABET)
+        doc.append(["sec", rng.choice([0, 0, 1]), name, rng.choice([0, 0, 2])])
+        for _ in range(rng.choice([1, 2, 3, 5])):
+            r = rng.random()
+            if r < 0.7:
+                doc.append(["opt", rng.choice(opts), rng.choice([0, 1, 2]), rng.choice("=:"), rng.choice([0, 1, 2]),
+                            rng.choice(INI_SPECIAL_VALS + INI_VALS)])
+            elif r < 0.93:
+                doc.append(["comment", rng.random() < 0.5, rng.choice(["", " c", " key = hidden", "max;size = 9", " x ; y # z"]),
+                            rng.choice([0, 0, 0, 1, 4])])
+            else:
+                doc.append(["blank"])
+    c = {"op": "ini", "doc": doc, "oracle": True}
+    c["qs"] = ini_queries(doc, rng)
+    return c
+
+
+def ini_alphabet_cases():
+    """systematic: every character of key_chars / header_chars at first, inner and last position of a name"""
+    names = []
+    for ch in KEY_ALPHABET:
+        if ch not in "#; ":
+            names.append(ch + "x")
+        names.append("x" + ch + "y")
+        if ch != " ":
+            names.append("x" + ch)
+    snames = []
+    for ch in HEADER_ALPHABET:
+        if ch != " ":
+            snames += [ch + "x", "x" + ch]
+        snames.append("x" + ch + "y")
+    out = []
+    for i in range(0, len(names), 12):
+        doc = [["sec", 0, "s", 0]]
+        for j, n in enumerate(names[i:i + 12]):
+            doc.append(["opt", n, j % 2, "=:"[j % 2], (j // 2) % 2, "v%d" % j])
+        out.append({"op": "ini", "doc": doc, "oracle": True, "qs": [["s", names[i]], ["s", names[i].upper()]]})
+    for i in range(0, len(snames), 12):
+        doc = []
+        for j, n in enumerate(snames[i:i + 12]):
+            doc += [["sec", j % 2, n, (j // 2) % 2], ["opt", "k", 1, "=", 1, "v%d" % j]]
+        out.append({"op": "ini", "doc": doc, "oracle": True, "qs": [[snames[i], "k"], [" " + snames[i] + " ", "K"]]})
+    return out
+
+
 def gen_ini_irregular(rng):
     c = gen_ini(rng, True)
     lines = render_ini(c["doc"])
     k = rng.randrange(3)
     if k == 0:
-        lines.insert(rng.randrange(len(lines) + 1), rng.choice(["novalue", "novalue  ", "k = v # inline", "k = v ; kept"]))
+        lines.insert(rng.randrange(len(lines) + 1), rng.choice(["novalue", "novalue  ", "k = v # inline", "k = v ; kept", "max;size", "  continued line", "   ; indented comment", "k\u00e9 = \u00e9t\u00e9",
+                                                             "k[0] = 1", "= v", "[ ]", "[a] # c", "k = v\\", "\tk\t=\tv", "a]b = 1", "k ="]))
     elif k == 1:
         lines = ["stray = 1"] + lines
     return {"op": "ini", "lines": lines, "qs": c["qs"], "anv": rng.random() < 0.5}
@@ -936,6 +1046,14 @@ def run(chk):
     except Exception as e:
         chk.tie_broken("translator", "%s: %s" % (type(e).__name__, e), None)
 
+    try:
+        from translate import inichars as tri
+        changed = tri.write_if_changed(tri.generate(REPO))
+        chk.extra["translator_inichars"] = {"source": os.path.join(REPO, "insights/parsr/iniparser.py"), "rewrote_generated_file": changed,
+                                            "generated": "lean/IV/Gen/IniChars.lean"}
+    except Exception as e:
+        chk.tie_broken("translator-inichars", "%s: %s" % (type(e).__name__, e), None)
+
     # ---- 1. theorems
     chk.lean()
 
@@ -964,6 +1082,9 @@ def run(chk):
     add(gen_ini, 500, False)
     add(gen_ini, 300, True)
     add(gen_ini_irregular, 200)
+    add(gen_ini_special, 300)
+    for c in ini_alphabet_cases():
+        cases.append((c, None, None))
 
     lines, impls, shown = ["spacetab", "matchers"], [], []
     seen = set()
